@@ -1260,3 +1260,287 @@ func checkCallbackProducersHandOverInline(c *Ctx, rule string) {
 	}
 	c.Floor(rule, "enqueue sends made by backend callbacks", n, 5)
 }
+
+// checkFoundIndexSetsAccumulate: the block filterer reports, per key scope, the SET of address indexes paid in the block.
+// The per-scope set is created only when the scope has none yet; every hit is ADDED to it. Assigning a fresh set on
+// every hit keeps only the last index of a block that pays several addresses of one scope and branch.
+func checkFoundIndexSetsAccumulate(c *Ctx, rule string) {
+	p := c.P
+	n := 0
+	for _, fn := range p.FuncsIn("chain") {
+		if fn.Signature.Recv() == nil || recvName(fn) != "BlockFilterer" {
+			continue
+		}
+		for _, b := range fn.Blocks {
+			for _, ins := range b.Instrs {
+				mu, ok := ins.(*ssa.MapUpdate)
+				if !ok {
+					continue
+				}
+				_, f, _, okf := fieldOf(stripConv(mu.Map))
+				if !okf || !strings.HasPrefix(f, "Found") {
+					continue
+				}
+				if _, isMap := mu.Value.Type().Underlying().(*types.Map); !isMap {
+					continue
+				}
+				n++
+				// reachable only over the "scope has no set yet" edge of a lookup in the same outer map
+				unguarded := reachableAvoiding(fn, nil, mu, func(from *ssa.BasicBlock, si int) bool {
+					ef := edgeFactOf(from, si)
+					if ef == nil {
+						return false
+					}
+					if ex, ok := ef.V.(*ssa.Extract); ok && ex.Index == 1 && ef.Kind == "false" {
+						if lk, ok := ex.Tuple.(*ssa.Lookup); ok {
+							_, f2, _, ok2 := fieldOf(stripConv(lk.X))
+							return ok2 && f2 == f
+						}
+					}
+					if ef.Kind == "nil" {
+						if lk, ok := stripConv(ef.V).(*ssa.Lookup); ok {
+							_, f2, _, ok2 := fieldOf(stripConv(lk.X))
+							return ok2 && f2 == f
+						}
+					}
+					return false
+				})
+				c.Check(rule, "found-index-set-created-only-when-missing:"+fn.Name()+"."+f, mu.Pos(), !unguarded,
+					fnName(fn)+" assigns a new index set to "+f+"[scope] without having found the scope's set missing: every hit replaces the indexes found earlier in the same block, so only the last-matched address of a scope and branch is reported and the others are never recovered")
+			}
+		}
+	}
+	c.Floor(rule, "per-scope found-set creations in the block filterer", n, 2)
+}
+
+// checkFilterRequestCarriesEveryAddress: the request handed to FilterBlocks lists every address of both branches'
+// look-ahead sets (found and unfound alike: a later block may pay an address below the highest one found, or pay a found
+// one again). In the loops that copy a branch's address set into the request every iteration reaches the map update.
+func checkFilterRequestCarriesEveryAddress(c *Ctx, rule string) {
+	p := c.P
+	fn := p.Func("wallet", "", "newFilterBlocksRequest")
+	if fn == nil {
+		c.Unresolved(rule, "wallet.newFilterBlocksRequest")
+		return
+	}
+	n := 0
+	for _, part := range p.regionTop(fn) {
+		loops := loopsOf(part)
+		for _, l := range loops {
+			if l.Kind == "for" {
+				continue
+			}
+			var upd ssa.Instruction
+			for b := range l.Blocks {
+				for _, ins := range b.Instrs {
+					if mu, ok := ins.(*ssa.MapUpdate); ok {
+						if _, f, _, okf := fieldOf(stripConv(mu.Map)); okf && strings.HasSuffix(f, "Addrs") {
+							upd = mu
+						}
+					}
+				}
+			}
+			if upd == nil {
+				continue
+			}
+			inner := innermostLoopOf(loops, upd)
+			if inner != l {
+				continue
+			}
+			n++
+			bad := l.MustPassPerIteration(p, func(i ssa.Instruction) bool { return i == upd })
+			c.Check(rule, "filter-request-carries-every-address", l.Header.Instrs[0].Pos(), bad == "",
+				"newFilterBlocksRequest can skip an address of a branch's address set ("+bad+"): blocks paying a skipped address (one below the highest index found so far, or a re-used one) no longer match and their transactions are never recorded")
+		}
+	}
+	c.Floor(rule, "address-set copy loops in newFilterBlocksRequest", n, 2)
+}
+
+// checkBatchHandlerForwardsRescanEvents: the second hop of the same chain: rescanBatchHandler turns the backend's
+// RescanProgress / RescanFinished into RescanProgressMsg / RescanFinishedMsg for rescanProgressHandler, which is what
+// starts resendUnminedTxs after a finished (re)synchronisation. In each of the two arms every path to the next loop
+// iteration passes the hand-over on w.rescanProgress resp. w.rescanFinished — unless no batch is running at all.
+func checkBatchHandlerForwardsRescanEvents(c *Ctx, rule string) {
+	p := c.P
+	fn := walletFn(c, rule, "rescanBatchHandler")
+	if fn == nil {
+		return
+	}
+	want := map[string]string{"RescanFinished": "rescanFinished", "RescanProgress": "rescanProgress"}
+	n := 0
+	for _, f := range p.regionOf(fn) {
+		loops := loopsOf(f)
+		for _, b := range f.Blocks {
+			for _, ins := range b.Instrs {
+				ta, ok := ins.(*ssa.TypeAssert)
+				if !ok || !ta.CommaOk {
+					continue
+				}
+				tname := ta.AssertedType.String()
+				short := tname[strings.LastIndex(tname, ".")+1:]
+				ch, ok := want[short]
+				if !ok || !strings.HasSuffix(tname, "chain."+short) {
+					continue
+				}
+				l := innermostLoopOf(loops, ta)
+				if l == nil {
+					continue
+				}
+				for _, b2 := range f.Blocks {
+					for si := range b2.Succs {
+						ef := edgeFactOf(b2, si)
+						if ef == nil || ef.Kind != "true" {
+							continue
+						}
+						ex, ok := ef.V.(*ssa.Extract)
+						if !ok || ex.Tuple != ssa.Value(ta) {
+							continue
+						}
+						n++
+						isForward := viaHelpers("forward:"+ch, func(i ssa.Instruction) bool {
+							sel, ok := i.(*ssa.Select)
+							if !ok {
+								return false
+							}
+							for _, st := range sel.States {
+								if st.Dir == types.SendOnly {
+									if _, fld, _, okf := fieldOf(stripConv(st.Chan)); okf && fld == ch {
+										return true
+									}
+								}
+							}
+							return false
+						}, true)
+						q := &PathQuery{Fn: f, Barrier: isForward}
+						q.EdgeBarrier = func(from *ssa.BasicBlock, s2 int) bool {
+							// no batch is running: nothing to report progress or completion of
+							e2 := edgeFactOf(from, s2)
+							return e2 != nil && e2.Kind == "nil" && strings.Contains(e2.V.Type().String(), "rescanBatch")
+						}
+						q.LoopExit = func(from, to *ssa.BasicBlock) bool { return to == l.Header }
+						hits := exploreFromBlock(q, b2.Succs[si], b2)
+						c.Check(rule, "batch-handler-forwards:"+short, ta.Pos(), len(hits) == 0,
+							"rescanBatchHandler can finish handling a "+short+" notification of a running batch without handing it on (w."+ch+"): rescanProgressHandler never learns that the rescan finished, so resendUnminedTxs is not started and the unconfirmed transactions are not re-offered after this synchronisation")
+					}
+				}
+			}
+		}
+	}
+	c.Floor(rule, "rescan event arms in rescanBatchHandler", n, 2)
+}
+
+// checkFixedSelectionSourceIsStateless: the input source built for an explicit selection hands back the same inputs and
+// total on every call (the author calls it again whenever the fee estimate grows). Everything it returns is computed
+// once, outside the returned function: that function stores to no state that outlives the call.
+func checkFixedSelectionSourceIsStateless(c *Ctx, rule string) {
+	p := c.P
+	fn := p.Func("wallet", "", "constantInputSource")
+	if fn == nil {
+		c.Unresolved(rule, "wallet.constantInputSource")
+		return
+	}
+	n := 0
+	for _, cl := range p.valueFunctionsOf(fn) {
+		n++
+		var bad ssa.Instruction
+		for _, b := range cl.Blocks {
+			for _, ins := range b.Instrs {
+				if st, ok := ins.(*ssa.Store); ok && cellKey(st.Addr) != "" {
+					bad = st
+				}
+			}
+		}
+		detail := ""
+		if bad != nil {
+			detail = "the input source of an explicit selection changes captured state when it is called (" + p.Pos(bad.Pos()) + "): a second call, made whenever the fee estimate grows, returns the selection appended to itself — every selected outpoint twice and double the total"
+		}
+		c.Check(rule, "fixed-selection-source-is-stateless", cl.Pos(), bad == nil, detail)
+	}
+	c.Floor(rule, "functions returned by constantInputSource", n, 1)
+}
+
+// checkNoStaleTailAfterInPlaceFilter: filtering a slice in place (`kept := s[:0]; for … { kept = append(kept, x) }`)
+// leaves, beyond len(kept), stale copies of elements that were moved forward. After such a filter the original
+// full-length slice must not be read again (its length, its elements, a closure capturing it): shuffling or ranging over
+// it brings a duplicated coin back into the selection.
+func checkNoStaleTailAfterInPlaceFilter(c *Ctx, rule string) {
+	p := c.P
+	n, nFilters := 0, 0
+	for _, fn := range p.FuncsIn("wallet") {
+		if fn.Parent() != nil {
+			continue
+		}
+		n++
+		for _, b := range fn.Blocks {
+			for _, ins := range b.Instrs {
+				sl, ok := ins.(*ssa.Slice)
+				if !ok || sl.High == nil {
+					continue
+				}
+				if k, isK := constInt(sl.High); !isK || k != 0 {
+					continue
+				}
+				// the sliced value: a parameter (possibly spilled)
+				src := stripConv(sl.X)
+				var cell ssa.Value
+				if u, ok := src.(*ssa.UnOp); ok && u.Op == token.MUL {
+					if al, ok := u.X.(*ssa.Alloc); ok && isParamSpill(al) {
+						cell = al
+					}
+				}
+				if _, isP := src.(*ssa.Parameter); isP {
+					cell = src
+				}
+				if cell == nil {
+					continue
+				}
+				nFilters++
+				// any read of the original after the filter loop: a use of the parameter (or a load of its spill slot, or a
+				// closure binding it) in a block the slicing dominates and that is outside the loop which appends
+				loops := loopsOf(fn)
+				for _, r := range usesOf(cell) {
+					if r == ssa.Instruction(sl) || r.Block() == nil || !sl.Block().Dominates(r.Block()) {
+						continue
+					}
+					if _, isStore := r.(*ssa.Store); isStore {
+						continue
+					}
+					if ld, ok := r.(*ssa.UnOp); ok && ld == src {
+						continue
+					}
+					l := innermostLoopOf(loops, r)
+					inFilterLoop := false
+					if l != nil {
+						for bb := range l.Blocks {
+							for _, i2 := range bb.Instrs {
+								if call, ok := i2.(*ssa.Call); ok && calleeShort(&call.Call) == "append" {
+									inFilterLoop = true
+								}
+							}
+						}
+					}
+					if _, isRange := r.(*ssa.Range); isRange || inFilterLoop {
+						continue
+					}
+					// the range over the original that drives the filter loop reads len/elements in the loop header
+					if l != nil {
+						continue
+					}
+					hdr := false
+					for _, ll := range loops {
+						if ll.Header == r.Block() || (len(ll.Header.Preds) > 0 && ll.Header.Preds[0] == r.Block()) {
+							hdr = true
+						}
+					}
+					if hdr {
+						continue
+					}
+					c.Check(rule, "no-read-of-original-after-in-place-filter:"+fn.Name(), r.Pos(), false,
+						fnName(fn)+" filters a slice in place and afterwards still reads the original full-length slice: its tail holds stale copies of elements the filter moved forward, so an element can appear twice (the same coin selected twice for one transaction)")
+				}
+			}
+		}
+	}
+	c.Floor(rule, "wallet functions scanned for in-place filters", n, 50)
+	c.Note("%s: %d in-place filters of a parameter slice in package wallet", rule, nFilters)
+}
